@@ -45,7 +45,8 @@ Inductive top :=
 | TNewMap (m : tagmap)                 (* the client builds a map: it owns it *)
 | TAdd (c : Z) (m : Z)                 (* AddRPCTagsToContext(ctx c, client map m) -> new context *)
 | TRead (c : Z)                        (* TagsFromContext(ctx c) -> a map the client now holds *)
-| TMutate (m : Z) (k : bytes) (v : mval).   (* the client writes into a map it holds *)
+| TMutate (m : Z) (k : bytes) (v : mval)    (* the client writes into a map it holds *)
+| TDerive (c : Z).                     (* any other derivation: WithValue, WithCancel, WithTimeout, WithFireNow -> new context *)
 
 (* returns the new heap and the id created (map or context), if any *)
 Definition tstep (cfg : tcfg) (h : theap) (o : top) : theap * option Z :=
@@ -82,6 +83,12 @@ Definition tstep (cfg : tcfg) (h : theap) (o : top) : theap * option Z :=
               (mkTH ((nm, tm_merge [] addm) :: maps h) ((next_ctx h, Some nm) :: ctxs h) (nm + 1) (next_ctx h + 1) (client_maps h),
                Some (next_ctx h))
           end
+      end
+  | TDerive c =>
+      (* the new context resolves the tag key exactly as its parent does *)
+      match zfind c (ctxs h) with
+      | Some o => (mkTH (maps h) ((next_ctx h, o) :: ctxs h) (next_map h) (next_ctx h + 1) (client_maps h), Some (next_ctx h))
+      | None => (h, None)
       end
   | TMutate m k v =>
       if existsb (fun x => x =? m) (client_maps h) then
